@@ -30,7 +30,7 @@ class MOutOfDomain(Exception):
 class N:
     """A model node."""
 
-    __slots__ = ("kind", "name", "members", "uid", "target_path", "target", "suffix", "up", "stamp")
+    __slots__ = ("kind", "name", "members", "uid", "target_path", "target", "suffix", "up", "stamp", "unreg")
 
     def __init__(self, kind: str, name: str, uid: int, target_path: str | None = None, suffix: str = ".py") -> None:
         self.kind = kind            # module / class / function / attribute / alias
@@ -42,6 +42,7 @@ class N:
         self.suffix = suffix             # modules: .py or .pyi
         self.up: N | None = None         # container node (None: collection level or detached)
         self.stamp = 0                   # aliases: logical time at which the alias was last bound / registered
+        self.unreg = False               # aliases: bound while the rest of the chain could not be followed (never registered)
 
     def path(self) -> str:
         parts, n = [], self
